@@ -5,8 +5,19 @@ import MakoModel.Generated.NsFlow
 
 Theorems about the model `MakoModel/Namespace/Model.lean` (all template sets, URIs, association lists, heaps).
 Where the code has a defect w.r.t. the property the model has it too: the full statement is refuted by a
-`…_counterexample` and a `…_partial` theorem carries the guard (see `known_findings.json`: F-C07-1, -3, -5, -6, -7 and F5; F-C07-2 and F-C07-4 were repaired in /repo and their
-theorems are now proved in full).
+`…_counterexample` and a `…_partial` theorem carries the guard.  OPEN (recorded in `known_findings.json`):
+
+* F-C07-1 `star_import_value_partial` / `star_import_value_counterexample` – `import="*"` lets a def of the file shadow a
+  def written inside the tag;
+* F-C07-3 `local_api_relative_to_module_partial` / `…_counterexample` – `local` inside the defs of a `<%namespace>` tag of
+  the base-most template of an inheritance chain is the inheriting template;
+* F-C07-5 `lookup_normalised_partial` / `…_counterexample` – `put_string` entries are matched by the exact spelling;
+* F-C07-6 `ns_getattr_is_chain` (guard `key ∉ reservedAttrs`) / `ns_member_unreachable_for_every_reserved_name`,
+  `ns_member_reachable_counterexample` – defs named like attributes of the `Namespace` classes;
+* F-C07-7 `get_namespace_context_partial` / `…_counterexample` – `get_namespace()` keeps the caller's `parent`/`next`;
+* F5 `namespace_of_tag_partial` / `…_counterexample` – the per-render namespace cache is keyed by the non-injective module id.
+
+Everything else is proved without guard.
 -/
 namespace MakoModel.C07
 open MakoModel.Namespace MakoModel.Path
@@ -397,7 +408,7 @@ theorem join_relative (d : Str) (c : Char) (r : Str) (h : c ≠ '/') :
 theorem adjust_no_caller (u : Str) (h : u.head? ≠ some '/') : adjustUri u none = some ('/' :: u) := by
   simp [adjustUri, h]
 
-/-- `adjust_uri` is total (since the repair of F-C07-4 also on the empty string) -/
+/-- `adjust_uri` is total (the empty string takes the relative branch) -/
 theorem adjust_total (u : Str) (rel : Option Str) : ∃ v, adjustUri u rel = some v := by
   unfold adjustUri
   split
@@ -459,7 +470,7 @@ theorem api_relative_to_receiver (S : TSet) (fuel id : Nat) (uri : Str) (s : St)
 
 /-! ## an unresolvable URI raises `TemplateLookupException` -/
 
-/-- `unresolvable_raises_lookup_exception`: `_lookup_template` of **any** URI (the empty one included, F-C07-4 repaired)
+/-- `unresolvable_raises_lookup_exception`: `_lookup_template` of **any** URI (the empty one included)
 that the set cannot serve raises `TemplateLookupException` (the `TopLevelLookupException` of `get_template` is wrapped),
 leaving the output untouched. -/
 theorem unresolvable_raises_lookup_exception (S : TSet) (kind : EvKind) (raw : Str) (rel : Option Str) (s : St)
@@ -540,11 +551,11 @@ example : ∃ (S : TSet) (u u' : Str), S.coll = [] ∧ u ≠ u' ∧ (∀ d ∈ S
   ⟨⟨[], ["/r".toList], [("/r/x.html".toList, ⟨[], none, [], [], []⟩)], [], false, false⟩, "/sub/../x.html".toList, "/x.html".toList,
    rfl, by decide, by decide +kernel, by decide +kernel, ⟨[], none, [], [], []⟩, by decide +kernel⟩
 
-/-! ## defs written inside `<%namespace>` and `import=` (F-C07-2, repaired) -/
+/-! ## defs written inside `<%namespace>` and `import=` -/
 
 /-- `inline_def_runs`: a def written inside `<%namespace>` runs its items with the names of its sibling defs and of the
 module's namespaces, every other free name being read from the context – whether or not some `<%namespace>` tag of the
-template has `import=` (no guard any more: `has_ns_imports` is recorded after these defs are generated). -/
+template has `import=` (`has_ns_imports` is recorded after these defs are generated). -/
 theorem inline_def_runs (S : TSet) (fuel : Nat) (tu nsn dn : Str) (cid : Nat) (t : Template) (tag : NsTag)
     (items : List Item) (ht : setLookup S tu = .found t) (htag : t.findNs nsn = some tag)
     (hitems : alookup dn tag.inline = some items) :
@@ -563,7 +574,7 @@ theorem inline_def_name_is_context_lookup (env : Env) (c : Ctx) (x : Str) (h0 : 
 
 def s (x : String) : Str := x.toList
 
-/-- the former witness of F-C07-2:
+/-- a template with `import=` on the tag whose inline def reads a context name:
 `<%namespace name="n" file="/b" import="*"><%def name="foo()">${x}</%def></%namespace>${n.foo()}` -/
 def importNsWitness : TSet :=
   ⟨[(s "/a", ⟨[], none, [⟨s "n", .file (s "/b"), false, some [['*']], [(s "foo", [.name (s "x") false])]⟩], [],
@@ -616,15 +627,17 @@ example : ∃ (S : TSet) (env : Env) (s : St) (c : Ctx) (l : Nat) (o : NsObj), s
 
 /-! ## names that attribute lookup never hands to `__getattr__` (F-C07-6) -/
 
-/-- `ns_getattr_is_chain` carries the guard `key ∉ reservedAttrs`; without it: a def named like an attribute of the
-`Namespace` classes is not what `ns.<name>` yields – for every set, heap and namespace -/
-theorem ns_member_reachable_counterexample (S : TSet) (st : St) (id : Nat) (key : Str)
+/-- `ns_getattr_is_chain` carries the guard `key ∉ reservedAttrs`.  Outside the guard the statement fails not just on a
+witness but **universally**: for every set, heap, namespace and every reserved name, `getattr` answers with the
+attribute of the class and never with a def of that name (the concrete witness follows). -/
+theorem ns_member_unreachable_for_every_reserved_name (S : TSet) (st : St) (id : Nat) (key : Str)
     (hattr : st.attrs.find? (·.1 = (id, key)) = none) (hres : key ∈ reservedAttrs) :
     nsGetattr S st id key = .ok .other := by
   simp [nsGetattr, hattr, hres]
 
-/-- concretely `name`: the template at `/t` defines it, the chain lookup would find it, `getattr` does not -/
-theorem ns_member_reachable_counterexample_name :
+/-- `ns_member_reachable_counterexample` (F-C07-6), the witness `name`: the template at `/t` defines a def `name`, the
+chain lookup would find it, `getattr` does not -/
+theorem ns_member_reachable_counterexample :
     let S : TSet := ⟨[(s "/t", ⟨[], none, [], [⟨s "name", false, []⟩], []⟩)], [], [], [], false, false⟩
     let o : NsObj := ⟨s "n", .tmpl (s "/t"), [], none, 0⟩
     let st : St := ⟨[⟨[], none, none, none, none⟩], [o], [], [], [], []⟩
